@@ -34,6 +34,11 @@ CLAIMED = {
   note="Trusted: Go type checker, go/ssa, the explorer; tabled exceptions in internal/rules/c17.go (RemoveLock / RemoveLong* hand their zero test to callers; cancelWaitLock's unreachable holder arm).",
   technique="path-sensitive SSA effect pairing (counter/depth co-movement, reference-count balance, must-follow zero test) + value-origin typing of reply arguments, custom checker",
   ref="DESIGN.md section 4 C17"),
+ "C10": dict(
+  text="Static analysis: every engine mutation in LockDB.Lock/UnLock (72 sites) follows, inside the same shard-mutex section, a role test that found leader or a replay mark; the role field is only written with the shard mutexes held (interprocedural lock-state); follower-side protocols reach the local engine only after testing slock.state == LEADER; AOF/executor pushes are leader-only; a follower ends a replicated hold only after the 300 s leader-wait window; leader and follower text registries agree; the replay mark's provenance from client frames (reported as a known finding). Relaying fidelity and cross-node outcome equality need running nodes and are not decided, hence 'other'.",
+  note="Trusted: Go type checker, go/ssa, VTA call graph, the explorer and lock-state engine; axiom: a LockDB has at least one shard (NewLockDB), so 'lock all shards' loops run at least once.",
+  technique="path-sensitive SSA guard-dominance with critical-section scoping + interprocedural lock-state + registry comparison, custom checker",
+  ref="DESIGN.md section 4 C10"),
 }
 
 NA = {
